@@ -473,6 +473,12 @@ func evalImportStmt(vm *r.VM, node *syntax.ImportStmt) error {
 
 		// duplicate export values into module
 		for k, v := range library.GetAllExportValues() {
+			// every execution gets its own copy of the library's types: a
+			// constructor redefined by one program (如何新建X？) must not
+			// reach the programs run afterwards
+			if model, ok := v.(*value.ClassModel); ok {
+				v = model.Copy()
+			}
 			extModule.AddExportValue(k, v)
 		}
 		vm.PopCallFrame()
